@@ -17,11 +17,16 @@ type rtObs struct {
 	counters string
 	scrapeOK bool
 	scrape   string
+	scrapeEr string
 }
 
 func (e *rtEnv) observe() rtObs {
 	txt, err := e.scrape()
-	return rtObs{handles: e.dumpHandles(), store: e.dumpStore(), counters: e.dumpCounters(), scrapeOK: err == nil, scrape: txt}
+	er := ""
+	if err != nil {
+		er = err.Error()
+	}
+	return rtObs{handles: e.dumpHandles(), store: e.dumpStore(), counters: e.dumpCounters(), scrapeOK: err == nil, scrape: txt, scrapeEr: er}
 }
 
 func rtHandleMap(h string) map[string]int {
@@ -117,7 +122,7 @@ func c14Run(r *runCtx, id string, f []string) {
 						kept[declKey(d)] = true
 					}
 					for _, d := range cat[newV].decls {
-						if d.hidden || d.name == "lseen" || !kept[declKey(d)] {
+						if d.hidden || !kept[declKey(d)] {
 							continue
 						}
 						b, okb := metricLine(before.store, prog, d)
@@ -133,12 +138,12 @@ func c14Run(r *runCtx, id string, f []string) {
 				}
 			default:
 				// (c) the load failed (compile error or refused registration)
-				if strings.Join(before.store, " ") != strings.Join(after.store, " ") {
+				if strings.Join(storeOf(before.store, prog), " ") != strings.Join(storeOf(after.store, prog), " ") {
 					cls := "failed-load-changes-export"
 					if cat[fv].compiles {
 						cls = "partial-registration"
 					}
-					addFail(cls, "step %d: loading %s v%d failed but the store changed: before %v after %v", step, prog, fv, before.store, after.store)
+					addFail(cls, "step %d: loading %s v%d failed but its exported metrics changed: before %v after %v", step, prog, fv, storeOf(before.store, prog), storeOf(after.store, prog))
 				}
 				if had && (!has || newV != oldV) {
 					addFail("failed-load-stops-previous", "step %d: loading %s v%d failed and the previous version v%d is no longer running", step, prog, fv, oldV)
@@ -148,12 +153,14 @@ func c14Run(r *runCtx, id string, f []string) {
 		// (d) no duplicate series / scrape still works
 		if !after.scrapeOK {
 			cls := "scrape-fails"
-			if dupSeriesFromMovedDecl(after.store) {
+			if strings.Contains(after.scrapeEr, "was collected before with the same name and label values") && dupSeriesFromMovedDecl(after.store) {
 				cls = "reload-duplicate-series"
-			} else if labelDimensionClash(after.store) {
+			} else if strings.Contains(after.scrapeEr, "inconsistent label names") && labelDimensionClash(after.store) {
 				cls = "cross-program-label-clash"
 			}
-			addFail(cls, "step %d: after the load the Prometheus scrape fails; store %v", step, after.store)
+			if cls != "cross-program-label-clash" { // a different property (C06) covers clashes between programs
+				addFail(cls, "step %d: after the load the Prometheus scrape fails (%s); store %v", step, strings.ReplaceAll(after.scrapeEr, "\n", " "), after.store)
+			}
 		}
 	}
 	final := env.observe()
